@@ -227,6 +227,8 @@ func runJSONPos(rep *vh.Report) {
 		}
 		if cm := renderComplaint(obs, name, b); cm != "" {
 			rep.AddDiff(vh.Diff{Component: "C17-json-pos", Input: in, Impl: cm + " | " + obs.String(), Model: fmt.Sprintf("the message shows file %q, the line, left-trimmed source line and caret of offset %d", name, want)})
+			continue
 		}
+		reportFacade(rep, in, obs, runFile{"the document text", name, b}, nil)
 	}
 }
